@@ -1159,10 +1159,9 @@ func legC17Direct(c *Ctx) {
 						}
 					}
 					// ${N}, $N, ${name}
-					reps := []string{"<${" + strconv.Itoa(k) + "}>"}
-					if !m.ecma() {
-						reps = append(reps, "<$"+strconv.Itoa(k)+">")
-					}
+					// (in ECMAScript mode "$N" is the longest digit prefix that is a group number: for an existing k
+					// followed by a non-digit that is k itself)
+					reps := []string{"<${" + strconv.Itoa(k) + "}>", "<$" + strconv.Itoa(k) + ">"}
 					if lexicalName(names[gi]) {
 						reps = append(reps, "<${"+names[gi]+"}>")
 					}
@@ -1198,6 +1197,75 @@ func legC17Direct(c *Ctx) {
 			}()
 		}
 	}
+	// many groups: two-digit references $10.. in every mode, and the ECMAScript fallback "$1" + digit
+	manyChecks, fallbackChecks := 0, 0
+	for i := 0; i < c.N(40, 600); i++ {
+		ng := 10 + c.Rng.Intn(6)
+		named := c.Rng.Intn(ng) + 1
+		var sb strings.Builder
+		var in []rune
+		for g := 1; g <= ng; g++ {
+			ch := rune('a' + g - 1)
+			if g == named && c.Rng.Chance(50) {
+				fmt.Fprintf(&sb, "(?<last>%c)", ch)
+			} else {
+				fmt.Fprintf(&sb, "(%c)", ch)
+			}
+			in = append(in, ch)
+		}
+		pat, input := sb.String(), string(in)
+		for _, m := range gModes {
+			re, err := regexp2.Compile(pat, m.compileOpts()...)
+			if err != nil {
+				c.Add(&Case{Desc: fmt.Sprintf("many-groups mode=%s pattern=%q", m.Name, pat), Direct: "does not compile: " + err.Error(), Class: m.Name + "/many"})
+				continue
+			}
+			re.MatchTimeout = 2 * time.Second
+			mt, _ := re.FindStringMatch(input)
+			if mt == nil {
+				c.Add(&Case{Desc: fmt.Sprintf("many-groups mode=%s pattern=%q input=%q", m.Name, pat, input), Direct: "no match", Class: m.Name + "/many"})
+				continue
+			}
+			exists := map[int]bool{}
+			for _, k := range re.GetGroupNumbers() {
+				exists[k] = true
+			}
+			var d string
+			for _, k := range re.GetGroupNumbers() {
+				val := mt.GroupByNumber(k).String()
+				for _, rp := range []string{"<$" + strconv.Itoa(k) + ">", "<${" + strconv.Itoa(k) + "}>", "[$" + strconv.Itoa(k) + "]"} {
+					got, err := re.Replace(input, rp, -1, 1)
+					manyChecks++
+					want := string(rp[0]) + val + string(rp[len(rp)-1])
+					if err != nil || got != want {
+						d = fmt.Sprintf("Replace(%q, %q) = %q (err %v), want %q (GroupByNumber(%d) = %q)", input, rp, got, err, want, k, val)
+					}
+				}
+				// "$kd" where kd is not a group number: ECMAScript takes the longest existing prefix and keeps the rest
+				// literally; the other modes leave the whole unknown reference literal
+				for dgt := 0; dgt <= 9 && k > 0; dgt++ {
+					kd := k*10 + dgt
+					if exists[kd] {
+						continue
+					}
+					rp := "<$" + strconv.Itoa(kd) + ">"
+					got, err := re.Replace(input, rp, -1, 1)
+					fallbackChecks++
+					want := rp
+					if m.ecma() {
+						want = "<" + val + strconv.Itoa(dgt) + ">"
+					}
+					if err != nil || got != want {
+						d = fmt.Sprintf("Replace(%q, %q) = %q (err %v), want %q (group %d exists, %d does not)", input, rp, got, err, want, k, kd)
+					}
+				}
+			}
+			cs := &Case{Desc: fmt.Sprintf("many-groups mode=%s pattern=%q input=%q", m.Name, pat, input), Direct: d, Class: m.Name + "/many", Nontrivial: true, Key: m.Name + pat}
+			c.Add(cs)
+		}
+	}
+	c.Gate("two-digit replacement references ran", manyChecks > 400)
+	c.Gate("ECMAScript digit fallback ran", fallbackChecks > 400)
 	c.Gate("back-reference checks ran", refChecks > n)
 	c.Gate("conditional checks ran", condChecks > n)
 	c.Gate("replacement checks ran", replChecks > n)
